@@ -25,6 +25,25 @@ type c10U struct {
 	Y interface{} `json:"y"`
 }
 
+type c10Undec struct {
+	A    int      `json:"a"`
+	B    string   `json:"b"`
+	Done chan int `json:"done"`
+}
+
+// c10ErrText renders an error with the fields a caller inspects.
+func c10ErrText(err error) string {
+	switch e := err.(type) {
+	case nil:
+		return "no error"
+	case *json.UnmarshalTypeError:
+		return fmt.Sprintf("UnmarshalTypeError value=%s type=%v offset=%d struct=%s field=%s : %v", e.Value, e.Type, e.Offset, e.Struct, e.Field, err)
+	case *json.SyntaxError:
+		return fmt.Sprintf("SyntaxError offset=%d : %v", e.Offset, err)
+	}
+	return fmt.Sprintf("%T : %v", err, err)
+}
+
 // yieldWriter hands control to the scheduler before it consumes the bytes, as
 // a pipe or a contended writer would.
 type yieldWriter struct {
@@ -118,6 +137,16 @@ func c10Calls() []c10Call {
 			var v [][]int
 			err := json.Unmarshal([]byte(`[[7],[8,9]]`), &v)
 			return fmt.Sprintf("%v %v", v, err)
+		}},
+		// failing calls on a type with a member no document can fill: the error value (its offset and field) belongs
+		// to the failing call alone, although the decoder that produces it is cached and shared
+		{"Unmarshal(->struct with a chan member) A", func(y func(string), sh *c10Shared) string {
+			var v c10Undec
+			return c10ErrText(json.Unmarshal([]byte(`{"a":1,"done":1}`), &v))
+		}},
+		{"Unmarshal(->struct with a chan member) B", func(y func(string), sh *c10Shared) string {
+			var v c10Undec
+			return c10ErrText(json.Unmarshal([]byte(`{"a":1,        "b":"xyz",   "done":2}`), &v))
 		}},
 		{"Valid+Compact+Indent", func(y func(string), sh *c10Shared) string {
 			var b1, b2 bytes.Buffer
